@@ -46,9 +46,9 @@ func genC13(t *rapid.T) c13Case {
 		}
 		switch s.Transport {
 		case "adapter.request":
-			s.Behaviour = rapid.SampledFrom([]string{"silent", "late", "blockwrite", "blockflush", "otherop"}).Draw(t, "b")
+			s.Behaviour = rapid.SampledFrom([]string{"silent", "late", "blockwrite", "blockflush", "otherop", "reopening"}).Draw(t, "b")
 		case "adapter.oneway":
-			s.Behaviour = rapid.SampledFrom([]string{"blockwrite", "blockflush"}).Draw(t, "b")
+			s.Behaviour = rapid.SampledFrom([]string{"blockwrite", "blockflush", "reopening"}).Draw(t, "b")
 		case "nats":
 			s.Behaviour = rapid.SampledFrom([]string{"silent", "late", "otherop", "noresponder", "stalled-link", "stalled-link-oneway", "slow-link"}).Draw(t, "b")
 		case "http":
@@ -154,6 +154,36 @@ func execC13Sub(s c13Sub) *ev.Failure {
 			return ev.Failf("harness:open", "%v", err)
 		}
 		defer tr.Close()
+		if s.Behaviour == "reopening" {
+			// the transport was closed and is being reopened (by the monitor, say) while the connect
+			// hangs: a call made meanwhile must come back within its own timeout, with whatever error
+			tr.Close()
+			st.mu.Lock()
+			st.openDelay = timeout + 1500*time.Millisecond
+			st.mu.Unlock()
+			opened := make(chan error, 1)
+			go func() { opened <- tr.Open() }()
+			time.Sleep(3 * time.Millisecond)
+			var f *ev.Failure
+			if s.Transport == "adapter.oneway" {
+				f = call(func() error { return tr.Oneway(ctx, req) }, false)
+			} else {
+				f = call(func() error { _, err := tr.Request(ctx, req); return err }, false)
+			}
+			if f != nil {
+				f.Sig = "during-reopen:" + f.Sig
+				f.Msg = "call made while a reopen of the transport hangs in connect: " + f.Msg
+			}
+			select {
+			case <-opened:
+			case <-time.After(10 * time.Second):
+				return ev.Failf("harness:reopen", "the slow Open never returned")
+			}
+			st.mu.Lock()
+			st.openDelay = 0
+			st.mu.Unlock()
+			return f
+		}
 		var gate chan struct{}
 		switch s.Behaviour {
 		case "blockwrite":
